@@ -7,6 +7,7 @@ sites: ServerKeyExchange signature, client CertificateVerify (<=1.2), server
 and client CertificateVerify (1.3), post-handshake authentication, Finished
 in both directions, PSK binder, SRP password, mismatching key/chain, Checker.
 """
+import copy
 import struct
 
 from .. import world as W
@@ -1079,6 +1080,60 @@ def dc_run(item, prepare=None):
     return name, shape, accept, pair, out, chain
 
 
+# ------------------------------------------- Checker x resumption histories
+def checker_resume_case(item):
+    """A server-side Checker refuses the client's certificate on the first
+    connection; the client comes back with what that connection gave it
+    (session ID / ticket).  The refused identity must not be accepted."""
+    v, how, seed = item
+    name = "checker-resume/%s/%s" % (S.VNAME[v], how)
+    sc = S.Scen("c05/" + name, version=v, cred="rsa", client_cred="c_rsa",
+                req_cert=True, tickets=(how == "ticket"),
+                suite=CS.TLS_AES_128_GCM_SHA256 if v >= (3, 4) else
+                CS.TLS_RSA_WITH_AES_128_CBC_SHA)
+    cache = W.SessionCache() if how == "id" else None
+    chain, key = load_cred("rsa")
+    bad = Checker(x509Fingerprint="00" * 20)
+    sess = None
+    outs = []
+    for n in (0, 1):
+        SEAMS.reset(seed + n, name)
+        pair = Pair(World())
+        SEAMS.current = "C"
+        cg = sc.client_gen(pair.c, session=sess)
+        SEAMS.current = "S"
+        sg = pair.s.handshakeServerAsync(
+            certChain=chain, privateKey=key, reqCert=True,
+            settings=sc.server_settings(), sessionCache=cache, checker=bad)
+        SEAMS.current = "main"
+        out = pair.handshake(cg, sg, max_steps=60000)
+        outs.append((out["C"].sig()[:2], out["S"].sig()[:2]))
+        if n == 0:
+            if out["S"].status == "ok":
+                return name, ("first-accepted",), [
+                    "the Checker mismatch did not fail the first call"]
+            if out["C"].status == "ok" and v >= (3, 4):
+                pair.read("C", None, 0)     # let tickets arrive, if any
+            sess = pair.c.session
+            if sess is None:
+                return name, ("no-session",), []
+            # an application that ignores the invalidation of its session
+            # object (or keeps the ticket elsewhere)
+            sess = copy.deepcopy(sess)
+            sess.resumable = True
+        else:
+            if out["S"].status == "ok":
+                ident = W.chain_fp(pair.s.session.clientCertChain) \
+                    if pair.s.session else None
+                return name, ("second-accepted", bool(pair.s.resumed)), [
+                    "a client whose certificate the Checker refused came "
+                    "back with the %s of that connection and was accepted "
+                    "(resumed=%s, identity recorded: %r)" % (
+                        how, pair.s.resumed, ident)]
+    return name, ("refused-twice",) + tuple(outs[1]), []
+
+
+
 def run(res, tier, seed):
     res.coverage["rule"] = (
         "proof sites (ServerKeyExchange signature, client CertificateVerify, "
@@ -1146,6 +1201,20 @@ def run(res, tier, seed):
     res.section("ticket_identity", cases=nt, dimensions=(
         "ticket hash x offered suites x knows secret x ticket age x own "
         "certificate x external PSK"))
+    ncr = 0
+    for (name, sig, fails) in pmap(
+            checker_resume_case,
+            [(v, how, seed) for v in ((3, 1), (3, 3), (3, 4))
+             for how in ("id", "ticket") if not (v >= (3, 4) and
+                                                 how == "id")]):
+        ncr += 1
+        res.count()
+        res.outcome(tuple(sig))
+        for f in fails:
+            res.violation({"site": "checker-resumption",
+                           "how": name.split("/")[-1], "what": f[:40]},
+                          {"case": name, "fail": f}, {"checker_resume": name})
+    res.section("checker_then_resumption", cases=ncr)
     dcs = dc_cases(tier)
     nd = 0
     acc = 0
